@@ -52,6 +52,9 @@ theorem readUvarint_go_ok_pos (b : ByteArray) (pos lim : Nat) :
     by_cases h1 : pos + i ≥ lim
     · rw [if_pos h1] at h; simp at h
     · rw [if_neg h1] at h
+      by_cases h10 : i ≥ 10
+      · rw [if_pos h10] at h; simp at h
+      rw [if_neg h10] at h
       simp only at h
       by_cases h2 : get b (pos + i) < 0x80
       · rw [if_pos h2] at h
@@ -68,17 +71,18 @@ theorem readUvarint_ok_pos (b : ByteArray) (pos lim v n : Nat)
   have := readUvarint_go_ok_pos _ _ _ _ _ _ _ _ _ h
   omega
 
-theorem recLoop_mono (recs : Array (Nat × Nat)) (inp : ByteArray) :
-    ∀ (n p i p1 : Nat) (st : Status), readTail.recLoop recs inp n p i = some (p1, st) → p ≤ p1 := by
+theorem recLoop_mono (inp : ByteArray) :
+    ∀ (n p : Nat) (acc : Array (Nat × Nat)) (p1 : Nat) (st : Status) (parsed : Array (Nat × Nat)),
+      readTail.recLoop inp n p acc = some (p1, st, parsed) → p ≤ p1 := by
   intro n
   induction n with
   | zero =>
-    intro p i p1 st h
+    intro p acc p1 st parsed h
     rw [readTail.recLoop.eq_1] at h
     simp only [Option.some.injEq, Prod.mk.injEq] at h
     omega
   | succ n ih =>
-    intro p i p1 st h
+    intro p acc p1 st parsed h
     rw [readTail.recLoop.eq_2] at h
     generalize readUvarint inp p inp.size = u1 at h
     cases u1 with
@@ -96,10 +100,8 @@ theorem recLoop_mono (recs : Array (Nat × Nat)) (inp : ByteArray) :
           simp only at h
           split at h
           · simp only [Option.some.injEq, Prod.mk.injEq] at h; omega
-          · split at h
-            · simp only [Option.some.injEq, Prod.mk.injEq] at h; omega
-            · have := ih _ _ _ _ h
-              omega
+          · have := ih _ _ _ _ _ h
+            omega
 
 /-- the tail of `readTail` after the index records have been read: padding, index CRC, footer -/
 theorem readTail_sound (flags : Nat) (recs : Array (Nat × Nat)) (r r' : RdState)
@@ -113,8 +115,9 @@ theorem readTail_sound (flags : Nat) (recs : Array (Nat × Nat)) (r r' : RdState
     (le32At r.inp (r'.pos - 8) + 1) * 4 = r'.pos - 12 - r.pos ∧
     (Hash.crc32 r.inp r.pos (r'.pos - 16)).toNat = le32At r.inp (r'.pos - 16) ∧
     (checkSize flags).isSome = true ∧
-    ∃ k p1, readUvarint r.inp (r.pos + 1) r.inp.size = .ok recs.size k ∧
-      readTail.recLoop recs r.inp recs.size (r.pos + 1 + k) 0 = some (p1, .eof) ∧
+    ∃ k p1 parsed, readUvarint r.inp (r.pos + 1) r.inp.size = .ok recs.size k ∧
+      readTail.recLoop r.inp recs.size (r.pos + 1 + k) #[] = some (p1, .eof, parsed) ∧
+      parsed.toList = recs.toList ∧
       r'.pos - 16 = p1 + padLen (p1 - r.pos) ∧
       allZero r.inp p1 (r'.pos - 16) = true := by
   unfold readTail at h
@@ -132,11 +135,11 @@ theorem readTail_sound (flags : Nat) (recs : Array (Nat × Nat)) (r r' : RdState
       have hc' : cnt = recs.size := by omega
       subst hc'
       have hk := readUvarint_ok_pos _ _ _ _ _ hu
-      generalize hl : readTail.recLoop recs r.inp recs.size (r.pos + 1 + k) 0 = lr at h
+      generalize hl : readTail.recLoop r.inp recs.size (r.pos + 1 + k) #[] = lr at h
       split at h
       · simp only [Prod.mk.injEq, reduceCtorEq, and_false] at h
       · simp only [Prod.mk.injEq, reduceCtorEq, and_false] at h
-      · rename_i p1
+      · rename_i p1 parsed
         have hm := recLoop_mono _ _ _ _ _ _ _ hl
         have hp : p1 - (r.pos + 1) + 1 = p1 - r.pos := by omega
         rw [hp] at h
@@ -153,6 +156,9 @@ theorem readTail_sound (flags : Nat) (recs : Array (Nat × Nat)) (r r' : RdState
         by_cases c4 : (Hash.crc32 r.inp r.pos pc).toNat ≠ le32At r.inp pc
         · rw [if_pos c4] at h; simp only [Prod.mk.injEq, reduceCtorEq, and_false] at h
         rw [if_neg c4] at h
+        by_cases c45 : parsed.toList ≠ recs.toList
+        · rw [if_pos c45] at h; simp only [Prod.mk.injEq, reduceCtorEq, and_false] at h
+        rw [if_neg c45] at h
         by_cases c5 : pc + 4 + 12 > r.inp.size
         · rw [if_pos c5] at h; simp only [Prod.mk.injEq, reduceCtorEq, and_false] at h
         rw [if_neg c5] at h
@@ -187,18 +193,23 @@ theorem readTail_sound (flags : Nat) (recs : Array (Nat × Nat)) (r r' : RdState
         rw [e3, e4, e2, e8, e12, e16]
         have c10' : get r.inp (pc + 4 + 9) = flags := by simpa using c10
         refine ⟨trivial, trivial, trivial, ?_, by omega, c10', by simpa using c8, by simpa using c6,
-          by simpa using c7, ?_, by simpa using c4, ?_, k, p1, rfl, hl, hpc.symm, by simpa using c2⟩
+          by simpa using c7, ?_, by simpa using c4, ?_, k, p1, parsed, rfl, hl, by simpa using c45, hpc.symm,
+          by simpa using c2⟩
         · omega
         · omega
         · rw [← c10']
           cases hcs : checkSize (get r.inp (pc + 4 + 9)) with
           | none => simp [hcs] at c9
           | some _ => rfl
-      · rename_i st hne1 hne2
+      · rename_i hne1 hne2
         simp only [Prod.mk.injEq] at h
         obtain ⟨_, h2⟩ := h
         subst h2
-        exact (hne2 rfl).elim
+        first
+          | exact (hne2 _ _ rfl).elim
+          | exact (hne2 _ rfl).elim
+          | exact (hne2 rfl).elim
+          | exact (hne1 _ _ rfl).elim
 
 /-- the optional size field of a block header: present iff the flag bit is set, below 2^63 -/
 theorem sizeField_sound (c : Prop) [Decidable c] (inp : ByteArray) (p lim : Nat) (v : Option Nat) (p' : Nat)
@@ -347,7 +358,7 @@ theorem readTail_inp_aux (flags : Nat) (recs : Array (Nat × Nat)) (r r' : RdSta
   | overflow => simp only [Prod.mk.injEq] at h; obtain ⟨h1, _⟩ := h; subst h1; exact ⟨rfl, rfl, rfl⟩
   | ok cnt k =>
     simp only at h
-    generalize readTail.recLoop recs r.inp cnt (r.pos + 1 + k) 0 = lr at h
+    generalize readTail.recLoop r.inp cnt (r.pos + 1 + k) #[] = lr at h
     by_cases hc : cnt ≠ recs.size
     · rw [if_pos hc] at h
       have h1 := congrArg Prod.fst h
@@ -357,7 +368,7 @@ theorem readTail_inp_aux (flags : Nat) (recs : Array (Nat × Nat)) (r r' : RdSta
     rw [if_neg hc] at h
     split at h
     case h_3 =>
-      iterate 11
+      iterate 12
         rcases ite_pair_cases h with h1 | h
         · simp only at h1; subst h1; exact ⟨rfl, rfl, rfl⟩
       have h1 := congrArg Prod.fst h
@@ -629,49 +640,42 @@ def parseIndexRecs (inp : ByteArray) : Nat → Nat → Option (List (Nat × Nat)
       | _ => none
     | _ => none
 
-theorem recLoop_records (recs : Array (Nat × Nat)) (inp : ByteArray) :
-    ∀ (n p i p1 : Nat), readTail.recLoop recs inp n p i = some (p1, .eof) → i + n ≤ recs.size →
-      parseIndexRecs inp n p = some ((recs.toList.drop i).take n, p1) := by
+theorem recLoop_records (inp : ByteArray) :
+    ∀ (n p : Nat) (acc : Array (Nat × Nat)) (p1 : Nat) (parsed : Array (Nat × Nat)),
+      readTail.recLoop inp n p acc = some (p1, .eof, parsed) →
+      ∃ l, parseIndexRecs inp n p = some (l, p1) ∧ parsed.toList = acc.toList ++ l := by
   intro n
   induction n with
   | zero =>
-    intro p i p1 h _
+    intro p acc p1 parsed h
     rw [readTail.recLoop.eq_1] at h
-    simp only [Option.some.injEq, Prod.mk.injEq, and_true] at h
-    subst h
-    simp [parseIndexRecs]
+    simp only [Option.some.injEq, Prod.mk.injEq, true_and] at h
+    obtain ⟨h1, h2⟩ := h
+    subst h1; subst h2
+    exact ⟨[], by simp [parseIndexRecs], by simp⟩
   | succ n ih =>
-    intro p i p1 h hi
+    intro p acc p1 parsed h
     rw [readTail.recLoop.eq_2] at h
     rw [parseIndexRecs]
     generalize readUvarint inp p inp.size = u1 at h ⊢
     cases u1 with
-    | eof _ => simp only [Option.some.injEq, Prod.mk.injEq, reduceCtorEq, and_false] at h
-    | overflow => simp only [Option.some.injEq, Prod.mk.injEq, reduceCtorEq, and_false] at h
+    | eof _ => simp only [Option.some.injEq, Prod.mk.injEq, reduceCtorEq, and_false, false_and] at h
+    | overflow => simp only [Option.some.injEq, Prod.mk.injEq, reduceCtorEq, and_false, false_and] at h
     | ok a ka =>
       simp only at h ⊢
       split at h
-      · simp only [Option.some.injEq, Prod.mk.injEq, reduceCtorEq, and_false] at h
+      · simp only [Option.some.injEq, Prod.mk.injEq, reduceCtorEq, and_false, false_and] at h
       · generalize readUvarint inp (p + ka) inp.size = u2 at h ⊢
         cases u2 with
-        | eof _ => simp only [Option.some.injEq, Prod.mk.injEq, reduceCtorEq, and_false] at h
-        | overflow => simp only [Option.some.injEq, Prod.mk.injEq, reduceCtorEq, and_false] at h
+        | eof _ => simp only [Option.some.injEq, Prod.mk.injEq, reduceCtorEq, and_false, false_and] at h
+        | overflow => simp only [Option.some.injEq, Prod.mk.injEq, reduceCtorEq, and_false, false_and] at h
         | ok b kb =>
           simp only at h ⊢
           split at h
-          · simp only [Option.some.injEq, Prod.mk.injEq, reduceCtorEq, and_false] at h
-          · split at h
-            · simp only [Option.some.injEq, Prod.mk.injEq, reduceCtorEq, and_false] at h
-            · rename_i hne
-              rw [ih _ _ _ h (by omega)]
-              have hlt : i < recs.size := by omega
-              have hg : recs.getD i (0, 0) = (a, b) := by simpa using hne
-              have hg' : recs[i] = (a, b) := by
-                rw [← hg]; simp [Array.getD, hlt]
-              have hd : recs.toList.drop i = recs[i] :: recs.toList.drop (i + 1) := by
-                rw [List.drop_eq_getElem_cons (by simpa using hlt)]
-                simp
-              simp only [hd, hg', List.take_succ_cons]
+          · simp only [Option.some.injEq, Prod.mk.injEq, reduceCtorEq, and_false, false_and] at h
+          · obtain ⟨l, e1, e2⟩ := ih _ _ _ _ h
+            rw [e1]
+            exact ⟨(a, b) :: l, rfl, by rw [e2]; simp⟩
 
 /-- the index accepted by `readTail` lists exactly the (unpadded size, uncompressed size) pairs
     `recs` collected from the blocks read, followed by zero padding up to the index CRC -/
@@ -681,12 +685,11 @@ theorem readTail_index_sound (flags : Nat) (recs : Array (Nat × Nat)) (r r' : R
       parseIndexRecs r.inp recs.size (r.pos + 1 + k) = some (recs.toList, p1) ∧
       r'.pos - 16 = p1 + padLen (p1 - r.pos) ∧
       allZero r.inp p1 (r'.pos - 16) = true := by
-  obtain ⟨_, _, _, _, _, _, _, _, _, _, _, _, k, p1, h1, h2, h3, h4⟩ := readTail_sound flags recs r r' h
+  obtain ⟨_, _, _, _, _, _, _, _, _, _, _, _, k, p1, parsed, h1, h2, hp, h3, h4⟩ := readTail_sound flags recs r r' h
   refine ⟨k, p1, h1, ?_, h3, h4⟩
-  have := recLoop_records recs r.inp _ _ _ _ h2 (by omega)
-  have ht : List.take recs.size recs.toList = recs.toList :=
-    List.take_of_length_le (by simp)
-  simpa [ht] using this
+  obtain ⟨l, e1, e2⟩ := recLoop_records r.inp _ _ _ _ _ h2
+  rw [e1, ← hp, e2]
+  simp
 
 end Xz
 
